@@ -77,7 +77,10 @@ def gen(rng):
         step = {"mode": str(rng.choice(MODES if thermal_ok else ["hydraulics"])),
                 "numba": bool(rng.random() < 0.5), "fm": str(rng.choice(["nikuradse", "colebrook", "swamee-jain"])),
                 "fail": str(rng.choice(["no", "no", "no", "budget", "loads"])), "edit": bool(rng.random() < 0.4),
-                "nonlinear_method": str(rng.choice(["constant", "automatic"]))}
+                "nonlinear_method": str(rng.choice(["constant", "automatic"])),
+                # matrix-update option (its cache must not outlive the call unless reuse_internal_data is requested) and a
+                # structural edit that is undone after the call
+                "update": bool(rng.random() < 0.35), "toggle_pipe": bool(rng.random() < 0.25)}
         hist.append(step)
     stored = {}
     if rng.random() < 0.5:
@@ -87,7 +90,7 @@ def gen(rng):
         for i in rng.permutation(len(pool))[:int(rng.integers(1, 4))]:
             stored[pool[int(i)][0]] = pool[int(i)][1]
     s["c12"] = {"history": hist, "final_mode": str(rng.choice(MODES[:3] if thermal_ok else ["hydraulics"])),
-                "nan_outer": bool(rng.random() < 0.5), "stored_options": stored}
+                "nan_outer": bool(rng.random() < 0.5), "stored_options": stored, "final_update": bool(rng.random() < 0.4)}
     return s
 
 
@@ -180,6 +183,15 @@ def oracle(spec):
         undo = None
         if step["fail"] == "budget":
             kw.update(max_iter_hyd=1, max_iter_therm=1, max_iter_bidirect=1)
+        if step.get("update"):
+            kw["only_update_hydraulic_matrix"] = True
+        undo2 = None
+        if step.get("toggle_pipe") and len(net.pipe) > 1:
+            pi = net.pipe.index[len(net.pipe) // 2]
+            oldv = bool(net.pipe.at[pi, "in_service"])
+            net.pipe.at[pi, "in_service"] = not oldv
+            undo2 = lambda pi=pi, oldv=oldv: net.pipe.__setitem__("in_service", net.pipe.in_service.where(net.pipe.index != pi, oldv))
+            before = snapshot(net)
         if step["fail"] == "loads" and len(net.sink):
             old = net.sink.mdot_kg_per_s.values.copy()
             net.sink["mdot_kg_per_s"] = old * 1e4
@@ -200,8 +212,12 @@ def oracle(spec):
                           "detail": {"what": d, "mode": step["mode"]}})
         if undo:
             undo()
+        if undo2:
+            undo2()
     # final run on the used net vs. the same run on an untouched copy
     kw = dict(opts0, mode=v["final_mode"], use_numba=True, friction_model="nikuradse", nonlinear_method="constant")
+    if v.get("final_update"):
+        kw["only_update_hydraulic_matrix"] = True
     ea = eb = None
     try:
         pp.pipeflow(net, **kw)
